@@ -50,7 +50,12 @@ pub mod ffi {
         idx: u64,
     ) {
         let idx = idx.try_into().ok();
-        match idx.and_then(|idx| this.get(idx)) {
+
+        // Hold the lock from the lookup until the element has been cloned,
+        // so that no other thread can relocate or free the storage that
+        // `src` points into in between.
+        let raw = this.0.lock().unwrap();
+        match idx.and_then(|idx| raw.get(idx)) {
             Some(src) => {
                 // We got a pointer into the list, clone it into out at the correct alignment
 
@@ -63,7 +68,6 @@ pub mod ffi {
                 // `out` must be a valid RotoOption<T>.
                 unsafe { out.cast::<u8>().write(1) };
 
-                let raw = this.0.lock().unwrap();
                 let size = raw.vtable.size();
                 let alignment = raw.vtable.align();
                 let offset = 1usize.next_multiple_of(alignment);
@@ -241,7 +245,10 @@ pub mod boundary {
 
         /// Get the element at index `idx`
         pub fn get(&self, idx: usize) -> Option<T> {
-            let ptr = self.inner.get(idx)?;
+            // Keep the list locked until the element has been cloned: the
+            // pointer is only valid while no other thread can push.
+            let raw = self.inner.0.lock().unwrap();
+            let ptr = raw.get(idx)?;
 
             // SAFETY: The list has values of T::Transformed, which means that
             // this cast is valid.
@@ -527,10 +534,6 @@ impl ErasedList {
         drop(raw);
 
         new
-    }
-
-    pub fn get(&self, idx: usize) -> Option<NonNull<T>> {
-        self.0.lock().unwrap().get(idx)
     }
 
     /// Check whether a list contains a value.
